@@ -1,0 +1,47 @@
+//go:build verif
+
+package pipeline
+
+// Exported accessors for the pipeline-level verification harness (C01, C02, C04, C05, C10, C13, C15).
+
+// VerifOwner maps the object of a trace label to the streamer of its pipeline (one per pipeline),
+// so that labels of concurrently running pipelines can be told apart. Batchers map to themselves.
+func VerifOwner(obj any) any {
+	switch x := obj.(type) {
+	case *stream:
+		if x == nil {
+			return nil
+		}
+		return x.streamer
+	case *processor:
+		return x.streamer
+	case *Pipeline:
+		return x.streamer
+	}
+	return obj
+}
+
+// VerifKey is the streamer of the pipeline (the demultiplexing key of its labels).
+func (p *Pipeline) VerifKey() any { return p.streamer }
+
+func (p *Pipeline) VerifPoolInUse() int64   { return p.eventPool.inUse() }
+func (p *Pipeline) VerifPoolWaiters() int64 { return p.eventPool.waiters() }
+func (p *Pipeline) VerifProcCount() int     { return int(p.procCount.Load()) }
+
+// VerifObjKind classifies label objects: 1 batcher, 2 stream, 3 processor, 4 pipeline, 0 other.
+func VerifObjKind(obj any) int {
+	switch obj.(type) {
+	case *Batcher:
+		return 1
+	case *stream:
+		return 2
+	case *processor:
+		return 3
+	case *Pipeline:
+		return 4
+	}
+	return 0
+}
+
+// VerifObjID is the address of a label object.
+func VerifObjID(obj any) int64 { return verifID(obj) }
